@@ -10,6 +10,10 @@ findings = [
       what="BitField.insert (packet window, 32 bits) silently accepts a sequence number older than the window: a datagram replayed after more than 32 newer datagrams is not recognised as a duplicate (connection:BitField.insert, cell diff in [33, 32767])"),
  dict(status=K, property="C04", key="C04.R1|connection:BitField.insert|nbits=256 cell=older than window",
       what="BitField.insert (message window, 256 bits) silently accepts a message number older than the window: a message re-delivered after more than 256 newer messages is handed to the application twice (connection:BitField.insert, cell diff in [257, 32767])"),
+ dict(status=K, property="C05", key="C05.R7|connection:ConnectionBase._recvAppFragment|del self.received_fragments[key]",
+      what="the receiver purges an incomplete reassembly context after 1.0 + 0.5*count seconds (connection:ConnectionBase._recvAppFragment, `del self.received_fragments[key]` for expired receivers): a guaranteed fragmented message one of whose fragments is lost twice is silently lost when another fragment arrives meanwhile (probe: findings/fragment_expiry_probe.py)"),
+ dict(status=K, property="C07", key="C07.R6|connection:ConnectionBase._recvAppFragment|del self.received_fragments[key]",
+      what="the callback of a fragmented send reports True when every fragment's datagram was acked, but the receiver may already have purged the partially reassembled message (expiry in connection:ConnectionBase._recvAppFragment): success is reported for a message the peer never accepted as a whole (probe: findings/fragment_expiry_probe.py)"),
  # ---- fixed ------------------------------------------------------------------------------------------------------------------
  dict(status=F, property="C01", commit="7d8204e", key="C01.R1|connection:Packet.from_bytes|pkt.msg = data[PacketHeader.SIZE:]",
       what="fixed: property=C01 7d8204e Packet.from_bytes took the CRC-only branch for CLIENT_HELLO/SERVER_HELLO-typed datagrams on a keyed connection: a forged hello with count=2 and inner APP messages was delivered, a forged CLIENT_HELLO re-keyed a connected client"),
